@@ -149,7 +149,11 @@ def close(a, b):
         return True
     if isinstance(a, np.ndarray) and isinstance(b, np.ndarray) and a.shape == b.shape and a.dtype == b.dtype and a.dtype.kind in "fc":
         with np.errstate(all="ignore"):
-            return bool(np.allclose(a, b, rtol=1e-12, atol=0, equal_nan=True))
+            # (atol relative to the block's magnitude: a linspace re-sliced by the optimizer gives 8.9e-16 where the
+            # other path gives exactly 0.0 - last-bit noise, not another array)
+            fin = np.abs(a[np.isfinite(a)]) if a.size else np.zeros(0)
+            scale = float(fin.max()) if fin.size else 1.0
+            return bool(np.allclose(a, b, rtol=1e-12, atol=1e-12 * max(1.0, scale), equal_nan=True))
     return False
 
 
